@@ -517,6 +517,8 @@ func checkC13(w *World, r *Report) {
 	r.rule("C13.kind", "the kinds a collection builtin can return (computed as the possible dynamic types of its success results) stay within the kinds confirmed against the README / step files on the reviewed tree: concat, cons, rest, map, take, drop, keys, vals yield lists; vec, subvec, range vectors; assoc/dissoc/conj/update the kind of their argument; a builtin whose result could suddenly be 'whatever was passed' or another kind is reported")
 	kindRule(w, r, e, "C13.kind")
 	rangeErrorRule(w, r, e, "C13.range-error")
+	applyArgsRule(w, r, e, "C13.apply-args")
+	nilBranchRule(w, r, e, "C13.nil-branch")
 	// "outside their domain (wrong kind ...) they return an error": the kind test is the binder's assignability test
 	r.include("C13.binder-", "C20.", "a builtin called with an argument of the wrong kind answers with the binder's type error: arguments reach the Go function exactly as given, nil as nil", checkC20, func(rule string) bool {
 		switch rule {
@@ -909,6 +911,7 @@ func checkC17(w *World, r *Report) {
 	r.rule("C17.span", "the collection returned by read_list carries open.Close(closer): open is a copy of the first token's cursor, closer the cursor of the token that matched the end; reader-macro forms carry a cursor too")
 	r.rule("C17.reposition", "NewLispError sets the cursor of the error it returns to GetPosition(form) on every path: an error a builtin returns with coordinates of its own (read-string, eval) is re-positioned at the failing call form")
 	newLispErrorRule(w, r, "C17.reposition")
+	builtinRepositionRule(w, r, e, "C17.reposition")
 	r.rule("C17.carrier", "errors coming back from nested evaluation are not re-positioned on the way up (the innermost position survives): shared with C03.propagate; the lookup error of a symbol is positioned at the symbol")
 	// provenance in types/positiontype.go
 	np := 0
@@ -1478,6 +1481,10 @@ func checkC19(w *World, r *Report) {
 	r.include("C19.process-", "C11.", "eval and load-file evaluate in the environment they were registered in: no package-level variable stands in for it", checkC11, func(rule string) bool {
 		return rule == "C11.package-state" || rule == "C11.globals"
 	})
+	// the forms Go code builds are the forms the reader would have built: made of storage of their own
+	r.rule("C19.lnotation-fresh", "the L-notation constructors write only into storage they allocated: a form built from a slice the Go caller keeps (or spreads into several forms) does not change under the caller's hands, nor one form through another (shared with C02.write)")
+	nlf := ruleContainerWrites(w, r, e, "C19.lnotation-fresh", func(fn *ssa.Function) bool { return fnPkgPath(fn) == modPath+"/lnotation" }, false)
+	r.add("C19.lnotation-fresh", nil, "container writes in package lnotation", token.NoPos, "ok", fmt.Sprintf("%d write sites examined", nlf))
 	// cursor-free
 	a := newAudit(w, e, r, "C19.cursor-free")
 	a.computeClosure(evalEntries(w), func(f *ssa.Function) bool {
@@ -1874,6 +1881,8 @@ func checkC20(w *World, r *Report) {
 	}
 	c20EntryRules(w, r, e, callFn)
 	recoverDirectRule(w, r, "C20.recover-direct")
+	r.rule("C20.error-result", "the error a bound function returns is the error the caller gets: NewLispError, which positions it at the call form, returns the very object it was given (a LispError as is, anything else stored whole), never something dug out of its chain (shared with C03.object)")
+	newLispErrorRule(w, r, "C20.error-result")
 	constFormatRule(w, r, "C20.const-format")
 	argsCtx, args := w.Fn("lib/call", "_args_ctx"), w.Fn("lib/call", "_args")
 	nilnil, nilerr, reserr := w.Fn("lib/call", "_nil_nil"), w.Fn("lib/call", "_nil_error"), w.Fn("lib/call", "_result_error")
@@ -2824,7 +2833,21 @@ func derivesFromImplements(e *Engine, v ssa.Value, depth int) bool {
 		}
 		return false
 	case *ssa.Call:
-		return x.Call.IsInvoke() && x.Call.Method.Name() == "Implements"
+		if x.Call.IsInvoke() && x.Call.Method.Name() == "Implements" {
+			return true
+		}
+		// a predicate of the package that answers with such a test (takesContext(finType))
+		if callee := x.Call.StaticCallee(); callee != nil && inModule(callee) && len(callee.Blocks) > 0 && callee.Signature.Results().Len() == 1 {
+			for _, b := range callee.Blocks {
+				if len(b.Instrs) == 0 {
+					continue
+				}
+				if ret, ok := b.Instrs[len(b.Instrs)-1].(*ssa.Return); ok && len(ret.Results) == 1 && derivesFromImplements(e, ret.Results[0], depth+1) {
+					return true
+				}
+			}
+		}
+		return false
 	case *ssa.Phi:
 		for _, op := range x.Edges {
 			if derivesFromImplements(e, op, depth+1) {
@@ -3060,6 +3083,67 @@ func identityRule(w *World, r *Report, rule string) {
 			}
 		}
 	}
+	// the unexported functions the builtins are built from: handing a parameter back is "nothing to do" only
+	// where another parameter (a path, a list of keys) is known to be empty
+	for _, root := range w.registeredFuncs() {
+		if fnPkgPath(root) != modPath+"/lib/core" {
+			continue
+		}
+		// helpers whose result is the builtin's result (returned by it, or by another such helper)
+		resultOf := map[*ssa.Function]bool{root: true}
+		for changed := true; changed; {
+			changed = false
+			for f := range resultOf {
+				for _, rt := range errorReturns(f) {
+					v, _ := rt[1].(ssa.Value)
+					if mi, ok := v.(*ssa.MakeInterface); ok {
+						v = mi.X
+					}
+					if c, ok := unboxedCall(v); ok && c.Call.StaticCallee() != nil && !resultOf[c.Call.StaticCallee()] && inModule(c.Call.StaticCallee()) {
+						resultOf[c.Call.StaticCallee()] = true
+						changed = true
+					}
+				}
+			}
+		}
+		for _, h := range w.withPkgHelpers(root) {
+			if seen[h] || h == root || !resultOf[h] {
+				continue
+			}
+			seen[h] = true
+			for _, rt := range errorReturns(h) {
+				ret := rt[0].(*ssa.Return)
+				v, _ := rt[1].(ssa.Value)
+				ev, _ := rt[2].(ssa.Value)
+				if v == nil || isNilConst(v) || (ev != nil && !isNilConst(ev)) {
+					continue
+				}
+				if !argumentAsIs(h, v, 0) {
+					continue
+				}
+				n++
+				emptyOther := false
+				for _, a := range knownConds(ret.Block()) {
+					bo, ok := a.v.(*ssa.BinOp)
+					if !ok || !a.pol || bo.Op != token.EQL {
+						continue
+					}
+					k, isK := bo.Y.(*ssa.Const)
+					lc, isLen := bo.X.(*ssa.Call)
+					if isK && isLen && k.Value != nil && k.Int64() == 0 {
+						if bi, ok := lc.Call.Value.(*ssa.Builtin); ok && bi.Name() == "len" {
+							emptyOther = true
+						}
+					}
+				}
+				if emptyOther {
+					r.ok(rule, h, "argument returned unchanged", ret.Pos(), "under the test that another argument (a path, a list of keys) is empty: nothing to do")
+				} else {
+					r.bad(rule, h, "argument returned unchanged", ret.Pos(), w.fnName(h)+" hands the collection it was given back as the result on a path that is not 'nothing to do': whatever the builtin was to change (a value replaced by an equal one of another kind, say) is silently not changed")
+				}
+			}
+		}
+	}
 	r.floor(rule, "returns of an unchanged argument", n, 1)
 }
 
@@ -3255,7 +3339,11 @@ func c20EntryRules(w *World, r *Report, e *Engine, callFn *ssa.Function) {
 
 	r.rule("C20.context-test", "the test for a leading context parameter is applied to every function that has at least one parameter: the guard in front of In(0) demands NumIn() >= 1 and nothing more")
 	nt := 0
-	for _, b := range callFn.Blocks {
+	var ctBlocks []*ssa.BasicBlock
+	for _, f := range w.withPkgHelpers(callFn) {
+		ctBlocks = append(ctBlocks, f.Blocks...)
+	}
+	for _, b := range ctBlocks {
 		for _, in := range b.Instrs {
 			c, ok := in.(*ssa.Call)
 			if !ok || !c.Call.IsInvoke() || c.Call.Method.Name() != "In" || len(c.Call.Args) != 1 {
@@ -4354,4 +4442,235 @@ func isPositionFn(fn *ssa.Function) bool {
 		}
 	}
 	return false
+}
+
+// applyArgsRule: (apply f a b … xs) calls f with a, b, … followed by the elements of xs: every argument list the
+// apply builtin hands to types.Apply is made of both parts - the leading arguments and the spread sequence - and
+// a shortcut that passes only one of them is taken only where the other one is known to be empty.
+func applyArgsRule(w *World, r *Report, e *Engine, rule string) {
+	r.rule(rule, "the apply builtin passes on the leading arguments followed by the elements of its last argument on every path: an argument slice that contains only one of the two parts is used only under the test that the other part is empty")
+	ap := w.builtin("apply")
+	target := w.Fn("types", "Apply")
+	getSlice := w.Fn("types", "GetSlice")
+	if ap == nil || target == nil || getSlice == nil || len(ap.Params) == 0 {
+		r.undecided(rule, nil, "apply / types.Apply / types.GetSlice", token.NoPos, "functions no longer resolve")
+		return
+	}
+	variadic := ssa.Value(ap.Params[len(ap.Params)-1])
+	var sources func(v ssa.Value, depth int) (lead, last bool)
+	sources = func(v ssa.Value, depth int) (bool, bool) {
+		if depth > 10 {
+			return false, false
+		}
+		switch x := v.(type) {
+		case *ssa.Slice:
+			if x.X == variadic {
+				return true, false
+			}
+			return sources(x.X, depth+1)
+		case *ssa.Extract:
+			if c, ok := x.Tuple.(*ssa.Call); ok && c.Call.StaticCallee() == getSlice && x.Index == 0 {
+				return false, true
+			}
+		case *ssa.Phi:
+			ld, la := false, false
+			for _, op := range x.Edges {
+				a, b := sources(op, depth+1)
+				ld, la = ld || a, la || b
+			}
+			return ld, la
+		case *ssa.Call:
+			if bi, ok := x.Call.Value.(*ssa.Builtin); ok && bi.Name() == "append" {
+				a1, b1 := sources(x.Call.Args[0], depth+1)
+				a2, b2 := false, false
+				if len(x.Call.Args) > 1 {
+					a2, b2 = sources(x.Call.Args[1], depth+1)
+				}
+				return a1 || a2, b1 || b2
+			}
+		}
+		return false, false
+	}
+	n := 0
+	for _, f := range w.withPkgHelpers(ap) {
+		if f != ap {
+			continue
+		}
+		for _, c := range staticCallsTo(f, target) {
+			if len(c.Call.Args) < 3 {
+				continue
+			}
+			n++
+			lead, last := sources(c.Call.Args[2], 0)
+			// emptiness tests in force at the call
+			leadEmpty, lastEmpty := false, false
+			for _, a := range knownConds(c.Block()) {
+				bo, ok := a.v.(*ssa.BinOp)
+				if !ok {
+					continue
+				}
+				k, isK := bo.Y.(*ssa.Const)
+				lc, isLen := bo.X.(*ssa.Call)
+				if !isK || !isLen || k.Value == nil || k.Int64() != 0 {
+					continue
+				}
+				if bi, ok := lc.Call.Value.(*ssa.Builtin); !ok || bi.Name() != "len" {
+					continue
+				}
+				isZero := (bo.Op == token.EQL && a.pol) || (bo.Op == token.NEQ && !a.pol) || (bo.Op == token.GTR && !a.pol) || (bo.Op == token.LEQ && a.pol)
+				if !isZero {
+					continue
+				}
+				ld, la := sources(lc.Call.Args[0], 0)
+				leadEmpty = leadEmpty || (ld && !la)
+				lastEmpty = lastEmpty || (la && !ld)
+			}
+			ok := (lead || leadEmpty) && (last || lastEmpty)
+			what := "neither part"
+			switch {
+			case lead && !last:
+				what = "the leading arguments only"
+			case last && !lead:
+				what = "the spread sequence only"
+			case lead && last:
+				what = "both parts"
+			}
+			r.check(ok, rule, f, "argument list handed on by apply", c.Pos(), what+" (the other part known empty where left out)", "apply calls the function with "+what+" on a path where the other part is not known to be empty: arguments are dropped, so the callee sees fewer arguments than the program passed")
+		}
+	}
+	r.floor(rule, "calls of types.Apply in the apply builtin", n, 1)
+}
+
+// nilBranchRule: on the way down a path (get-in, assoc-in, update-in) a branch that is missing *or nil* reads as an
+// empty collection - the three builtins agree on it, and get-in reads through what the other two write
+// through. The empty default is therefore chosen by testing the looked-up value for nil, not by testing the
+// presence of the key (a key bound to nil would otherwise be an error for assoc-in/update-in and nil for get-in).
+func nilBranchRule(w *World, r *Report, e *Engine, rule string) {
+	r.rule(rule, "in the nested-path builtins (get-in, assoc-in, update-in and the functions they are built from) the empty collection that stands in for an absent branch is selected by a test of the looked-up value against nil: a key bound to nil is read through and written through like a missing key, in all three alike")
+	n := 0
+	seen := map[*ssa.Function]bool{}
+	for _, name := range []string{"get-in", "assoc-in", "update-in"} {
+		root := w.builtin(name)
+		if root == nil {
+			r.undecided(rule, nil, name, token.NoPos, "builtin no longer resolves")
+			continue
+		}
+		for _, f := range w.withPkgHelpers(root) {
+			if seen[f] {
+				continue
+			}
+			seen[f] = true
+			for _, b := range f.Blocks {
+				for _, in := range b.Instrs {
+					phi, ok := in.(*ssa.Phi)
+					if !ok || !isMalType(phi.Type()) {
+						continue
+					}
+					// a merge of a looked-up element with an empty collection literal
+					var looked ssa.Value
+					var defIdx = -1
+					for i, op := range phi.Edges {
+						switch x := op.(type) {
+						case *ssa.MakeInterface:
+							if ld, ok := x.X.(*ssa.UnOp); ok {
+								if al, ok := ld.X.(*ssa.Alloc); ok && al.Comment == "complit" && len(*al.Referrers()) <= 2 {
+									defIdx = i
+								}
+							}
+							if _, isC := x.X.(*ssa.Const); isC {
+								defIdx = i
+							}
+						case *ssa.Lookup, *ssa.Extract:
+							looked = op
+						case *ssa.UnOp:
+							if _, isIA := x.X.(*ssa.IndexAddr); isIA {
+								looked = op
+							}
+						}
+					}
+					if looked == nil || defIdx < 0 {
+						continue
+					}
+					n++
+					// the test that sends control to the default
+					pred := b.Preds[defIdx]
+					okNil := false
+					what := "no test found"
+					for _, d := range f.Blocks {
+						iff := blockIf(d)
+						if iff == nil || !(d == pred || edgeDominates(d, 0, pred) || edgeDominates(d, 1, pred) || d.Succs[0] == pred || d.Succs[1] == pred) {
+							continue
+						}
+						if bo, ok := iff.Cond.(*ssa.BinOp); ok && (bo.Op == token.EQL || bo.Op == token.NEQ) && isNilConst(bo.Y) {
+							if bo.X == looked {
+								okNil = true
+							}
+							if ex, ok := looked.(*ssa.Extract); ok && bo.X == ssa.Value(ex) {
+								okNil = true
+							}
+						} else if d == pred || d.Succs[0] == pred || d.Succs[1] == pred {
+							what = describeVal(e, iff.Cond, 0)
+						}
+					}
+					r.check(okNil, rule, f, "test that selects the empty default branch", phi.Pos(), "the looked-up value compared with nil", "the empty collection is substituted on the strength of "+what+", not because the looked-up value is nil: a key that is present but bound to nil is no longer treated like a missing one (get-in still reads through it, assoc-in/update-in then fail on it)")
+				}
+			}
+		}
+	}
+	r.floor(rule, "defaulted branches in the nested-path builtins", n, 4)
+}
+
+// builtinRepositionRule: when a builtin fails, the error is positioned at the call form - whatever position it may
+// carry already (a builtin that evaluates or reads text returns errors with coordinates of that other text).
+func builtinRepositionRule(w *World, r *Report, e *Engine, rule string) {
+	m := newEvalModel(w, e)
+	nle := w.Fn("lisperror", "NewLispError")
+	if !m.ok || nle == nil {
+		r.undecided(rule, nil, "evaluator model / NewLispError", token.NoPos, "not available")
+		return
+	}
+	n := 0
+	for _, b := range m.EVAL.Blocks {
+		if !m.defaultRegion[b] {
+			continue
+		}
+		for _, in := range b.Instrs {
+			c, ok := in.(*ssa.Call)
+			if !ok || c.Call.StaticCallee() != nil || c.Call.IsInvoke() {
+				continue
+			}
+			if _, isB := c.Call.Value.(*ssa.Builtin); isB {
+				continue
+			}
+			if c.Call.Signature().Results().Len() != 2 {
+				continue
+			}
+			errEx := extractOf(c, 1)
+			if errEx == nil {
+				continue
+			}
+			// every return whose error comes from this call
+			for _, rt := range m.returns(m.EVAL) {
+				ret := rt[0].(*ssa.Return)
+				ev, _ := rt[2].(ssa.Value)
+				if ev == nil || isNilConst(ev) || !(c.Block() == ret.Block() || c.Block().Dominates(ret.Block())) || !derivesFromErr(ev, errEx, 0) {
+					continue
+				}
+				n++
+				repositioned := false
+				if mi, ok := ev.(*ssa.MakeInterface); ok {
+					if nc, ok := mi.X.(*ssa.Call); ok && nc.Call.StaticCallee() == nle {
+						repositioned = true
+					}
+				}
+				if nc, ok := ev.(*ssa.Call); ok {
+					if _, isDeco := errDecorator(nc.Call.StaticCallee()); isDeco {
+						repositioned = true
+					}
+				}
+				r.check(repositioned, rule, m.EVAL, "error of a failing builtin call", ret.Pos(), "positioned at the call form (NewLispError(err, form))", "on this path the error a builtin returned leaves EVAL as it came: if it carries coordinates of its own (a library callback, text read by the builtin) the failure is reported there, not at the failing call of the program")
+			}
+		}
+	}
+	r.floor(rule, "error returns of builtin calls in the application region", n, 1)
 }
